@@ -179,6 +179,13 @@ func createFilesInTar(info *nfpm.Info, tw *tar.Writer) ([]MtreeEntry, int64, err
 	for _, content := range info.Contents {
 		content.Destination = files.AsRelativePath(content.Destination)
 
+		// the payload shares its tar with the package metadata: an entry of
+		// the same name would be taken for (or shadow) that member
+		switch strings.TrimSuffix(content.Destination, "/") {
+		case ".PKGINFO", ".MTREE", ".INSTALL", ".BUILDINFO", ".CHANGELOG":
+			return nil, 0, fmt.Errorf("invalid destination /%s: the name is reserved for package metadata", content.Destination)
+		}
+
 		switch content.Type {
 		case files.TypeDir, files.TypeImplicitDir:
 			entries = append(entries, MtreeEntry{
